@@ -40,7 +40,7 @@ def jobs_stall(rng, thorough):
 
 
 def run(ctx: core.Ctx):
-    ctx.lean_stage()
+    ctx.lean_stage(extra_props=("Tie",))
     b2check.run_b2(ctx, jobs, ["C08"], label="traffic + lifecycle scenarios")
     b2check.run_b2(ctx, jobs_slow, MONS, label="slow (blocking) writes, monitor only", accept=False)
     b2check.run_b2(ctx, jobs_stall, MONS, label="sender held back at arbitrary statements, monitor only", accept=False)
